@@ -59,8 +59,8 @@ namespace bxdecay0 {
     double p;
     double tclev;
     double thlev;
-    particle * ipg563 = nullptr;
-    particle * ipg559 = nullptr;
+    int ipg563 = -1; // index in the event (a pointer would dangle when the particle list grows)
+    int ipg559 = -1; // index in the event (a pointer would dangle when the particle list grows)
     // Subroutine describes the deexcitation process in Se76 nucleus
     // after 2b-decay of Ge76 to ground and excited 0+ and 2+ levels
     // of Se76 ("Table of Isotopes", 7th ed., 1978).
@@ -112,7 +112,7 @@ namespace bxdecay0 {
     p      = prng_() * (cg + cK);
     if (p <= cg) { /* CARE */
       decay0_gamma(prng_, event_, Egamma, tclev, thlev, tdlev);
-      ipg563 = &event_.grab_last_particle();
+      ipg563 = static_cast<int>(event_.get_particles().size()) - 1;
       /* CARE */
     } else {
       decay0_electron(prng_, event_, Egamma - EbindK, tclev, thlev, tdlev);
@@ -129,15 +129,15 @@ namespace bxdecay0 {
     p      = prng_() * (cg + cK);
     if (p <= cg) {
       decay0_gamma(prng_, event_, Egamma, tclev, thlev, tdlev);
-      ipg559 = &event_.grab_last_particle();
+      ipg559 = static_cast<int>(event_.get_particles().size()) - 1;
     } else {
       decay0_electron(prng_, event_, Egamma - EbindK, tclev, thlev, tdlev);
       decay0_gamma(prng_, event_, EbindK, 0., 0., tdlev);
     } /* CARE */
     // Angular correlation between gammas 559 and 563 keV, L.Pandola + VIT
-    if (ipg559 != nullptr && ipg563 != nullptr) {
-      double p559 = ipg559->get_p();
-      double p563 = ipg563->get_p();
+    if (ipg559 >= 0 && ipg563 >= 0) {
+      double p559 = event_.grab_particles()[ipg559].get_p();
+      double p563 = event_.grab_particles()[ipg563].get_p();
       // Coefficients in formula 1+a2*ctet**2+a4*ctet**4 are from:
       // R.D.Evans, "The Atomic Nucleus", Krieger Publ. Comp., 1985, p. 240,
       // 0(2)2(2)0 cascade.
@@ -162,8 +162,8 @@ namespace bxdecay0 {
       if (prng_() * (1. + std::abs(a2) + std::abs(a4)) > 1. + a2 * gsl_pow_2(ctet) + a4 * gsl_pow_4(ctet)) {
         goto label_1;
       }
-      ipg559->set_momentum(p559 * stet1 * cos(phi1), p559 * stet1 * sin(phi1), p559 * ctet1);
-      ipg563->set_momentum(p563 * stet2 * cos(phi2), p563 * stet2 * sin(phi2), p563 * ctet2);
+      event_.grab_particles()[ipg559].set_momentum(p559 * stet1 * cos(phi1), p559 * stet1 * sin(phi1), p559 * ctet1);
+      event_.grab_particles()[ipg563].set_momentum(p563 * stet2 * cos(phi2), p563 * stet2 * sin(phi2), p563 * ctet2);
     }
     return;
   label_10000:
